@@ -95,10 +95,10 @@ OnDeliver(e) ==
   CASE e.kind = "resp" ->
          m' = IF e.k = "" THEN m
               ELSE [m EXCEPT !.calls = Put(m.calls, e.k, [Call(e.k) EXCEPT !.resps = Append(@, [tag |-> e.tag, variant |-> e.variant])])]
-    [] e.kind \in {"call", "notif"} ->
+    [] e.kind \in {"call", "notif", "init"} ->   \* "init": the initialize call, which is handled synchronously like a notification
          m' = [m EXCEPT !.reqs = Put(m.reqs, e.r, [NoReq EXCEPT !.kind = e.kind, !.id = e.id, !.dseq = e.seq, !.dup = e.dup,
                                                                !.afterClose = (m.closeSeq > 0)]),
-                        !.idn = IF e.kind = "call" THEN Put(m.idn, e.id, [Idn(e.id) EXCEPT !.deliv = @ + 1]) ELSE @]
+                        !.idn = IF e.kind \in {"call", "init"} THEN Put(m.idn, e.id, [Idn(e.id) EXCEPT !.deliv = @ + 1]) ELSE @]
     [] e.kind = "cancel" ->
          m' = [m EXCEPT !.reqs = [r \in DOMAIN m.reqs |-> IF m.reqs[r].id = e.id /\ m.reqs[r].kind = "call"
                                                           THEN [m.reqs[r] EXCEPT !.cancelSent = TRUE] ELSE m.reqs[r]]]
@@ -107,9 +107,9 @@ OnHStart(e) ==
   LET q == Req(e.r) IN
   \* calls release the dispatcher before their user-visible handler runs, so only a notification's
   \* start is ordered against everything delivered after it
-  /\ Check(l, "C03.DispatchFIFO", q.kind = "notif" => \A r2 \in DOMAIN m.reqs : m.reqs[r2].dseq > q.dseq => ~m.reqs[r2].started)
+  /\ Check(l, "C03.DispatchFIFO", q.kind \in {"notif", "init"} => \A r2 \in DOMAIN m.reqs : m.reqs[r2].dseq > q.dseq => ~m.reqs[r2].started)
   /\ Check(l, "C03.NotificationCompletesFirst",
-           \A r2 \in DOMAIN m.reqs : (m.reqs[r2].dseq < q.dseq /\ m.reqs[r2].kind = "notif" /\ m.reqs[r2].started) => m.reqs[r2].ended)
+           \A r2 \in DOMAIN m.reqs : (m.reqs[r2].dseq < q.dseq /\ m.reqs[r2].kind \in {"notif", "init"} /\ m.reqs[r2].started) => m.reqs[r2].ended)
   /\ Check(l, "C05.NoDispatchAfterClose", ~q.afterClose)
   /\ Check(l, "C05.NoDispatchAfterTransportClosed", ~m.trClosed)
   /\ m' = [m EXCEPT !.reqs = Put(m.reqs, e.r, [q EXCEPT !.started = TRUE])]
@@ -199,7 +199,9 @@ Step(e) ==
     [] e.ev = "step"       -> OnStep(e)
     [] e.ev = "quiesce1"   -> OnQuiesce1(e)
     [] e.ev = "final"      -> OnFinal(e)
-    [] e.ev = "panic"      -> m' = m /\ Fail(l, "C05.NoPanic")
+    \* a panic inside the SDK: a call completed twice, a count went negative, ... - every connection property excludes it
+    [] e.ev = "panic"      -> m' = m /\ Fail(l, "C01.NoPanic") /\ Fail(l, "C02.NoPanic") /\ Fail(l, "C03.NoPanic")
+                                     /\ Fail(l, "C04.NoPanic") /\ Fail(l, "C05.NoPanic")
     [] e.ev = "setup.error" -> m' = m /\ Fail(l, "X.Setup")
     [] OTHER               -> m' = m
 
